@@ -48,6 +48,11 @@ def graphs(tier):
     gs.append(('fused', [(0, 1), (1, 2), (2, 3), (3, 4), (4, 5), (5, 0), (0, 6), (6, 7), (7, 8), (8, 1)][:9] + [(8, 9), (9, 1)][:0]))
     gs.append(('metal-node', [(0, i) for i in range(1, 7)] + [(1, 7), (2, 8)]))
     gs.append(('two-components', [(0, 1), (1, 2), (3, 4), (4, 5), (5, 6)]))
+    # torsions with and without parameters in one structure (scheme 1 types a two-coordinate atom as C_1: no torsion about its bonds), listed in
+    # both orders: the kept type first, and the dropped type first
+    gs.append(('kept-then-dropped', [(0, 1), (0, 2), (0, 3), (3, 4), (3, 5), (5, 6)]))
+    gs.append(('dropped-then-kept', [(5, 6), (3, 5), (3, 4), (0, 3), (0, 2), (0, 1)]))
+    gs.append(('dropped-between-kept', [(0, 1), (0, 2), (0, 3), (3, 4), (3, 5), (5, 6), (6, 7), (7, 8), (7, 9), (6, 10)]))
     return gs
 
 
@@ -166,7 +171,9 @@ def check_typing(edges, scheme, seed):
     except AssertionError as e:
         return str(e)
     except Exception as e:
-        return None      # unsupported type combination (documented exception): outside the domain
+        if "don't know how to handle" in str(e):
+            return None      # unsupported type combination (documented exception of dihedral_params): outside the domain
+        return "typing raised %r" % (e,)
     # same type <=> same key; coefficients are those of the key
     adj = adjacency(edges)
     per_bond = Counter()
@@ -222,6 +229,8 @@ def check_typing(edges, scheme, seed):
             other = typed_terms(edges, types, perm=perm, shuffle_seed=seed + trial)
         except AssertionError as e:
             return "after renaming: %s" % e
+        except Exception as e:
+            return "after renaming %r and reordering the term lists, typing raised %r" % (perm, e)
         for kind in base:
             b = {t: c for t, (k, c) in base[kind].items()}
             o = {t: c for t, (k, c) in other[kind].items()}
